@@ -222,7 +222,7 @@ async def get_local_to_remote_destination(
 ) -> str:
     is_dst_dir, status = await dst_connector.run(
         location=dst_location,
-        command=[f'test -d "{dst}"'],
+        command=["test", "-d", shlex.quote(dst)],
         capture_output=True,
     )
     if status > 1:
@@ -265,21 +265,21 @@ async def get_remote_to_remote_write_command(
 ) -> MutableSequence[str]:
     is_dst_dir, status = await dst_connector.run(
         location=dst_locations[0],
-        command=[f'test -d "{dst}"'],
+        command=["test", "-d", shlex.quote(dst)],
         capture_output=True,
     )
     if status > 1:
         raise WorkflowExecutionException(is_dst_dir)
     # If destination path exists and is a directory
     elif status == 0:
-        return ["tar", "xpf", "-", "-C", dst]
+        return ["tar", "xpf", "-", "-C", shlex.quote(dst)]
     # Otherwise, if destination path does not exist
     else:
         # If basename must be renamed during transfer
         if posixpath.basename(src) != posixpath.basename(dst):
             is_src_dir, status = await src_connector.run(
                 location=src_location,
-                command=[f'test -d "{src}"'],
+                command=["test", "-d", shlex.quote(src)],
                 capture_output=True,
             )
             if status > 1:
@@ -290,19 +290,38 @@ async def get_remote_to_remote_write_command(
                     *(
                         asyncio.create_task(
                             dst_connector.run(
-                                location=dst_location, command=["mkdir", "-p", dst]
+                                location=dst_location,
+                                command=["mkdir", "-p", shlex.quote(dst)],
                             )
                         )
                         for dst_location in dst_locations
                     )
                 )
-                return ["tar", "xpf", "-", "-C", dst, "--strip-components", "1"]
+                return [
+                    "tar",
+                    "xpf",
+                    "-",
+                    "-C",
+                    shlex.quote(dst),
+                    "--strip-components",
+                    "1",
+                ]
             # Otherwise, if source path is a file
             else:
-                return ["tar", "xpf", "-", "-O", "|", "tee", dst, ">", "/dev/null"]
+                return [
+                    "tar",
+                    "xpf",
+                    "-",
+                    "-O",
+                    "|",
+                    "tee",
+                    shlex.quote(dst),
+                    ">",
+                    "/dev/null",
+                ]
         # Otherwise, if basename must be preserved
         else:
-            return ["tar", "xpf", "-", "-C", posixpath.dirname(dst)]
+            return ["tar", "xpf", "-", "-C", shlex.quote(posixpath.dirname(dst))]
 
 
 def get_tag(tokens: Iterable[Token]) -> str:
